@@ -175,6 +175,16 @@ func runC16inner(c C16Case) *Result {
 				return res.failf("RootPositions(%d,%d)[%d]=%d, geometry says %d", n, R, i, got[i], want)
 			}
 		}
+		// the caller owns the answer: it overwrites it (a sort, a translation in place ...) and asks again
+		for i := range got {
+			got[i] = ^uint64(0) - uint64(i)
+		}
+		again := u.RootPositions(n, R)
+		for i := range hs {
+			if i >= len(again) || again[i] != model.Pos(hs[i], firsts[i]>>hs[i], R) {
+				return res.failf("RootPositions(%d,%d) asked a second time, after the caller overwrote the first answer, = %v", n, R, again)
+			}
+		}
 	case "offset":
 		// R must be Rows(n); (row, off) a node inside some tree of n
 		n := c.N
@@ -279,6 +289,19 @@ func runC16inner(c C16Case) *Result {
 		}
 		if !eqU64(gc, comp) {
 			return res.failf("ProofPositions(%v,%d,%d) computable positions %v, geometry says %v", tg, n, R, gc, comp)
+		}
+		if len(tg) <= 64 {
+			// the caller owns both answers: it overwrites them and asks again
+			for i := range gn {
+				gn[i] = ^uint64(0)
+			}
+			for i := range gc {
+				gc[i] = ^uint64(0)
+			}
+			gn2, gc2 := u.ProofPositions(tg, n, R)
+			if !eqU64(gn2, need) || !eqU64(gc2, comp) {
+				return res.failf("ProofPositions(%v,%d,%d) asked a second time, after the caller overwrote the first answers, = %v, %v; geometry says %v, %v", tg, n, R, gn2, gc2, need, comp)
+			}
 		}
 	default:
 		return res.failf("case error: unknown kind %q", c.Kind)
